@@ -57,6 +57,26 @@ CHECK_DEADLOCK FALSE
 """
 
 
+def cap(ctx, scripts, n):
+    """at most n scripts, a seeded sample (TLC has checked the whole model; this bounds the replay cost)"""
+    import json
+    seen, uniq = set(), []
+    for s in scripts:
+        k = json.dumps(s, sort_keys=True)
+        if k not in seen:
+            seen.add(k)
+            uniq.append(s)
+    if len(uniq) <= n:
+        return uniq
+    keep = sorted(ctx.rng.sample(range(len(uniq)), n))
+    return [uniq[i] for i in keep]
+
+
+def harness_env():
+    """RocksDB directories of the replays live in memory when possible (each open costs ~0.2 CPU-s already)"""
+    return {"TMPDIR": "/dev/shm"} if os.path.isdir("/dev/shm") and os.access("/dev/shm", os.W_OK) else None
+
+
 def corrupt_recover(ev, rng):
     """change what one recovery returned (a property value, or a phantom node)"""
     if ev.get("ev") != "Recover" or "obs" not in ev:
